@@ -107,3 +107,37 @@ def is_normalized_both(ctx, prog):
     e = strip(hs.local(0))
     ok = e[0] == "call" and e[1].endswith("verify_block_hash_internal") and is_param(e[2][0], "blockhash") and is_param(e[2][1], "blockhash_len") and strip(e[2][4])[2] == "EXPECT_NORM"
     ctx.ob("SA-DELEGATE", "verify_block_hash_input::<N, EXPECT_NORM> = verify_block_hash_internal(.., verify_normalization = EXPECT_NORM)", ok, show(e)[:200], h.loc())
+
+
+def validator_content(ctx, prog):
+    """verify_block_hash_internal is what `is_valid` and every checked constructor rely on: its two symbol-range tests
+    (normalisation branch and plain branch) compare each element with the same bound ALPHABET_SIZE using `>=`, the tail
+    test requires zero, and the three flags select them as documented"""
+    RV = "SA-SIBLING"
+    f = prog.fn("hash::algorithms::verify_block_hash_internal")
+    ctx.visit(f)
+    sy = Sym(f)
+    cmps = []
+    bodies = [f] + prog.closures_of(f)
+    for g in bodies:
+        gs = Sym(g)
+        for i, j, s in g.stmts():
+            if s["s"] == "assign" and s["rv"]["r"] == "bin" and s["rv"]["op"] in ("Lt", "Le", "Gt", "Ge", "Eq", "Ne"):
+                a, b = gs.operand(s["rv"]["a"]), gs.operand(s["rv"]["b"])
+                cmps.append((s["rv"]["op"], strip(a), strip(b), g, s))
+    rng = [c for c in cmps if const_named(c[2], "block_hash::ALPHABET_SIZE") or const_named(c[1], "block_hash::ALPHABET_SIZE") or const_named(c[2], "base64::BASE64_INVALID") or const_named(c[1], "base64::BASE64_INVALID")]
+    ok = len(rng) == 2 and all(c[0] == "Ge" and const_named(c[2], "block_hash::ALPHABET_SIZE") and const_value(c[2]) == 64 for c in rng)
+    ctx.ob(RV, "verify_block_hash_internal: both symbol-range tests are `element >= ALPHABET_SIZE (64)` (normalisation branch and plain branch agree)", ok,
+           "range comparisons: %s" % [(c[0], show(c[1])[:40], show(c[2])[:40]) for c in rng], f.loc())
+    tail = [c for c in cmps if c[0] == "Ne" and const_value(c[2]) == 0 and c[3] is not f]
+    ctx.ob(RV, "verify_block_hash_internal: the tail test rejects any non-zero element past the length", len(tail) == 1, "tail comparisons: %d" % len(tail), f.loc())
+    # the slices: [len..] for the tail and [..len] for the content
+    from . import fields as F
+    slices = []
+    for i, t in f.calls():
+        if callee_of(t).split("::")[-1] == "index" and len(t["args"]) == 2:
+            rg = F.range_of(sy.operand(t["args"][1]))
+            if rg != "?":
+                slices.append((canon(strip(rg[0])), None if rg[1] is None else canon(strip(rg[1]))))
+    want = sorted([("param:blockhash_len", None), ("0", "param:blockhash_len")], key=str)
+    ctx.ob(RV, "verify_block_hash_internal inspects exactly blockhash[..len] (content) and blockhash[len..] (tail)", sorted(slices, key=str) == want, "slices %s" % slices, f.loc())
